@@ -109,7 +109,7 @@ type StressRelief struct {
 	reason             string
 	formula            string
 	stressed           bool
-	stayOnUntil        time.Time
+	lastAtOrAbove      time.Time // last time the stress level was at or above deactivateLevel
 	minDuration        time.Duration
 	topic              string // formatted topic name
 
@@ -447,6 +447,16 @@ func (s *StressRelief) Recalc() uint {
 	s.reason = reason
 	s.formula = formula
 
+	// We want to make sure that the stress level has been below the deactivate
+	// level for a minimum time before we turn stress relief off, so we remember
+	// the last time it wasn't. This is tracked in every mode and compared
+	// against the current minimum duration so that a config reload can't cut
+	// the hold time short.
+	now := s.Clock.Now()
+	if s.overallStressLevel >= s.deactivateLevel {
+		s.lastAtOrAbove = now
+	}
+
 	switch s.mode {
 	case Never:
 		s.stressed = false
@@ -464,14 +474,8 @@ func (s *StressRelief) Recalc() uint {
 				"reason":                  s.reason,
 			}).Logf("StressRelief has been activated")
 		}
-		// We want make sure that stress relief is below the deactivate level
-		// for a minimum time after the last time we said it should be, so
-		// whenever it's above that value we push the time out.
-		if s.stressed && s.overallStressLevel >= s.deactivateLevel {
-			s.stayOnUntil = s.Clock.Now().Add(s.minDuration)
-		}
 		// If it's on, should we deactivate it?
-		if s.stressed && s.overallStressLevel < s.deactivateLevel && s.Clock.Now().After(s.stayOnUntil) {
+		if s.stressed && s.overallStressLevel < s.deactivateLevel && now.After(s.lastAtOrAbove.Add(s.minDuration)) {
 			s.stressed = false
 			s.Logger.Warn().WithFields(map[string]interface{}{
 				"individual_stress_level": localLevel,
